@@ -20,6 +20,7 @@ import (
 	"crypto/sha1"
 	"encoding/json"
 	"fmt"
+	"os"
 	"sort"
 	"strings"
 	"time"
@@ -99,9 +100,35 @@ func (t *typedCache[K]) PolicyCosts() []ristretto.VerifCost {
 	return c
 }
 
+// BufShadow is the FIFO of pending writes, oldest first: the item the applier was handed
+// directly while it was idle and has not processed yet (Go gives a value sent on a buffered
+// channel straight to a blocked receiver), followed by the contents of the write buffer.
 func (t *typedCache[K]) BufShadow() []any {
 	setBuf, _ := ristretto.VerifChans(t.c)
-	return vsched.ShadowOf(setBuf)
+	var out []any
+	if _, app := daemonTids(); app >= 0 {
+		if v := vsched.InHand(app); v != nil {
+			if _, ok := ristretto.VerifItem[int64](v); ok {
+				out = append(out, v)
+			}
+		}
+	}
+	return append(out, vsched.ShadowOf(setBuf)...)
+}
+
+// tickPending counts ticks delivered but not yet turned into a completed sweep (in the
+// ticker's channel, or handed to the applier which is still sweeping).
+func tickPending() int {
+	n := 0
+	for _, t := range vtime.Tickers() {
+		n += t.Pending()
+	}
+	if _, app := daemonTids(); app >= 0 {
+		if _, ok := vsched.InHand(app).(time.Time); ok {
+			n++
+		}
+	}
+	return n
 }
 
 func (t *typedCache[K]) Resident(key int) bool {
@@ -111,8 +138,7 @@ func (t *typedCache[K]) Resident(key int) bool {
 
 func (t *typedCache[K]) PendingNew(key int) bool {
 	h, _ := ristretto.VerifKeyToHash(t.c, t.mk(key))
-	setBuf, _ := ristretto.VerifChans(t.c)
-	for _, x := range vsched.ShadowOf(setBuf) {
+	for _, x := range t.BufShadow() {
 		if it, ok := ristretto.VerifItem[int64](x); ok && it.Flag == 0 && !it.IsWait && it.Key == h {
 			return true
 		}
@@ -124,13 +150,19 @@ func (t *typedCache[K]) Estimate(h uint64) int64 { return ristretto.VerifEstimat
 
 func (t *typedCache[K]) SDump() *SDump {
 	d := &SDump{Dump: *t.Dump()}
-	setBuf, itemsCh := ristretto.VerifChans(t.c)
-	for _, x := range vsched.ShadowOf(setBuf) {
+	_, itemsCh := ristretto.VerifChans(t.c)
+	for _, x := range t.BufShadow() {
 		if it, ok := ristretto.VerifItem[int64](x); ok {
 			d.SetBufItems = append(d.SetBufItems, it)
 		}
 	}
-	for _, x := range vsched.ShadowOf(itemsCh) {
+	batches := vsched.ShadowOf(itemsCh)
+	if pol, _ := daemonTids(); pol >= 0 {
+		if b, ok := vsched.InHand(pol).([]uint64); ok {
+			batches = append([]any{b}, batches...)
+		}
+	}
+	for _, x := range batches {
 		if b, ok := x.([]uint64); ok {
 			d.ItemsCh = append(d.ItemsCh, append([]uint64(nil), b...))
 		}
@@ -256,9 +288,7 @@ func runHistory(spec *SeqSpec, hist []SeqEvent) *SeqRun {
 		snapshot := func() *SDump {
 			d := c.SDump()
 			d.ClockNs = vtime.Now().Sub(vtime.Base).Nanoseconds()
-			for _, t := range vtime.Tickers() {
-				d.TickPending += t.Pending()
-			}
+			d.TickPending = tickPending()
 			for _, b := range clientBlocked {
 				if b {
 					d.ClientState += "b"
@@ -306,26 +336,30 @@ func runHistory(spec *SeqSpec, hist []SeqEvent) *SeqRun {
 			case "env":
 				if e.Op.K == "sweep" {
 					// compound event: deliver a tick and let the applier process it at once
-					_, app := daemonTids()
 					runOp(c, Op{K: "tick"})
-					pending := 0
-					for _, t := range vtime.Tickers() {
-						pending += t.Pending()
-					}
-					if app >= 0 && pending > 0 {
+					for guard := 0; guard < 4 && tickPending() > 0; guard++ {
+						_, app := daemonTids()
+						if app < 0 {
+							break
+						}
 						// the applier's own ready cases come in select order (write buffer, ticker),
-						// rendezvous partners after them: the tick is its last own case
+						// joint transitions after them: the tick is its last own case; an applier
+						// that was handed the tick (or an item) directly just continues
 						pickT := -1
 						for i, d := range vsched.Query(app) {
 							if d.Partner < 0 {
 								pickT = i
 							}
 						}
-						if pickT >= 0 {
-							st := vsched.Drive(app, pickT)
-							for st == vsched.DriveChoice {
-								st = vsched.Drive(app, 0)
-							}
+						if pickT < 0 {
+							break
+						}
+						before := tickPending()
+						st := vsched.Drive(app, pickT)
+						for st == vsched.DriveChoice {
+							st = vsched.Drive(app, 0)
+						}
+						if tickPending() < before {
 							vsched.Log(evSweep, 0, 0, 0)
 						}
 					}
@@ -350,7 +384,7 @@ func runHistory(spec *SeqSpec, hist []SeqEvent) *SeqRun {
 						for st == vsched.DriveChoice {
 							st = vsched.Drive(app, 0)
 						}
-						if len(c.BufShadow()) == len(head)-1 {
+						if after := c.BufShadow(); len(after) == 0 || after[0] != head[0] {
 							if it, ok := ristretto.VerifItem[int64](head[0]); ok {
 								v, _ := it.Value.(int64)
 								fl := int64(it.Flag)
@@ -389,9 +423,7 @@ func runHistory(spec *SeqSpec, hist []SeqEvent) *SeqRun {
 			if e.K == "applier" {
 				costsBefore = c.PolicyCosts()
 				headBefore = c.BufShadow()
-				for _, t := range vtime.Tickers() {
-					tickBefore += t.Pending()
-				}
+				tickBefore = tickPending()
 				if spec.LogEstimates && len(headBefore) > 0 {
 					if it, ok := ristretto.VerifItem[int64](headBefore[0]); ok && it.Flag == 0 && !it.IsWait {
 						vsched.Log(evEst, int64(it.Key), c.Estimate(it.Key), 1)
@@ -422,7 +454,7 @@ func runHistory(spec *SeqSpec, hist []SeqEvent) *SeqRun {
 				st = vsched.DriveYielded // back at the mailbox: the call completed
 			}
 			run.Status = append(run.Status, st.String())
-			if e.K == "applier" && len(headBefore) > 0 && len(c.BufShadow()) == len(headBefore)-1 {
+			if after := c.BufShadow(); e.K == "applier" && len(headBefore) > 0 && (len(after) == 0 || after[0] != headBefore[0]) {
 				// the applier consumed the head of the write buffer: log what it was
 				if it, ok := ristretto.VerifItem[int64](headBefore[0]); ok {
 					v, _ := it.Value.(int64)
@@ -447,16 +479,14 @@ func runHistory(spec *SeqSpec, hist []SeqEvent) *SeqRun {
 						vsched.Log(evCost, int64(kc.Key), old, kc.Cost)
 					}
 				}
-				tickAfter := 0
-				for _, t := range vtime.Tickers() {
-					tickAfter += t.Pending()
-				}
-				if tickAfter < tickBefore {
+				if tickAfter := tickPending(); tickAfter < tickBefore {
 					vsched.Log(evSweep, 0, 0, 0) // the applier consumed a tick: one expiry sweep ran
 				}
 			}
-			if e.K == "op" || e.K == "resume" {
-				clientBlocked[e.T] = st == vsched.DriveBlocked
+			// a client is blocked exactly when it is in the middle of a call (it may have been
+			// released as the passive partner of another thread's step)
+			for ci := range clientBlocked {
+				clientBlocked[ci] = inOp[ci]
 			}
 		}
 		run.Post = snapshot()
@@ -485,7 +515,10 @@ func runHistory(spec *SeqSpec, hist []SeqEvent) *SeqRun {
 			spec.Probe(c, run)
 		}
 	}
-	res := vsched.Run(body, zeroChooser{}, vsched.Options{MaxSteps: 200000})
+	res := vsched.Run(body, zeroChooser{}, vsched.Options{MaxSteps: 200000, Trace: os.Getenv("VERIF_TRACE") != ""})
+	for _, l := range res.Trace {
+		fmt.Println("      ", l)
+	}
 	run.Events = res.Events
 	run.Outcome = res.Outcome
 	run.Detail = res.Detail
